@@ -230,6 +230,20 @@ def gen_vmx(rng, tier, adversarial):
             other = rng.pick(["shadowed.vmdk", "cdrom-image", "disk", "", "old value"])
             lines.insert(rng.randrange(0, pos + 1), ("kv", k, other))
             shadows += 1
+    # the same key assigned three or more times with alternating casing (A, B, A): the LAST line must win
+    for k, v in list(assigns):
+        if rng.chance(0.1):
+            pos = [i for i, l in enumerate(lines) if l[0] == "kv" and l[1] == k][-1]
+            a_form, b_form = rng.pick([(k, k.upper()), (k.lower(), k.upper()), (k.upper(), k.lower()), (k, k.swapcase())])
+            lines[pos] = ("kvr", a_form, v)
+            first = rng.randrange(0, pos + 1)
+            lines.insert(first, ("kvr", a_form, rng.pick(["first.vmdk", "cdrom-image", "", "stale"])))
+            second = rng.randrange(first + 1, pos + 2)
+            lines.insert(second, ("kvr", b_form, rng.pick(["second.vmdk", "cdrom-raw", "disk", "middle"])))
+            if rng.chance(0.3):
+                third = rng.randrange(second + 1, pos + 3)
+                lines.insert(third, ("kvr", a_form, rng.pick(["third.vmdk", "x"])))
+            shadows += 2
     # comments and blank lines
     ncom = rng.weighted([(0, 2), (2, 3), (6, 2)])
     for _ in range(ncom):
@@ -245,6 +259,9 @@ def gen_vmx(rng, tier, adversarial):
             out.append(l[1])
             continue
         _, k, v = l
+        if l[0] == "kvr":
+            out.append(k + rng.pick([" = ", "=", " ="]) + '"' + v + '"')
+            continue
         q1, q2 = rng.pick(PADQ), rng.pick(PADQ)
         if adversarial and rng.chance(0.15):
             q1 = rng.pick(["\t\"", "'", "\" \t", "\u00a0\""])
